@@ -135,14 +135,14 @@ def build_scenario(tmpdir, variant):
         return Response(b'posted %d' % len(request.get_data()))
     fpath = os.path.join(tmpdir, 'served.txt')
     routes = [('/resp', resp), ('/stream', stream), ('/ctx', ctx, render_basic), StaticFileRoute('/file', fpath),
-              ('/static', StaticApplication(tmpdir)), ('/branch/', resp), ('/boom', boom), ('/forbidden', forbidden),
+              ('/static', StaticApplication(tmpdir)), ('/branch/', resp), ('/item/<x>/', resp), ('/boom', boom), ('/forbidden', forbidden),
               POST('/post', posted), ('/meta', MetaApplication())]
     mws = {'plain': [], 'gzip': [GzipMiddleware()], 'cache': [HTTPCacheMiddleware()], 'debug': [],
            'gzip+cache': [GzipMiddleware(), HTTPCacheMiddleware()]}[variant]
     return Application(routes, middlewares=mws, debug=(variant == 'debug'))
 
 
-PATHS = ['/resp', '/stream', '/ctx', '/file', '/static/served.txt', '/static/noext', '/static/missing', '/branch', '/boom',
+PATHS = ['/item/a\x01b', '/item/\x7f/', '/item/tab\there', '/resp', '/stream', '/ctx', '/file', '/static/served.txt', '/static/noext', '/static/missing', '/branch', '/boom',
          '/forbidden', '/post', '/meta/', '/meta/json/', '/nothing/here', '/static/../x']
 METHODS = ['GET', 'HEAD', 'POST', 'OPTIONS']
 MTIME = 1500000000
